@@ -26,6 +26,8 @@ let run () =
         (cmp := match c with
           | "rev" -> (fun a b -> byte_cmp b a)
           | "len" -> (fun a b -> let la = List.length a and lb = List.length b in if la < lb then Lt else if la > lb then Gt else byte_cmp a b)
+          | "ci" -> let fold l = List.map (fun c -> let i = int_of_n c in if i >= 65 && i <= 90 then n_of_int (i + 32) else c) l in
+                    (fun a b -> byte_cmp (fold a) (fold b))
           | _ -> byte_cmp);
         st := init; sp := sinit; dead := false
     | ["new"] -> st := init; sp := sinit; dead := false
